@@ -172,6 +172,8 @@ contract("monkeytype.typing:get_dict_type", props=["C04", "C05", "C06", "C03"], 
                   "post:td-size": "implies(kind(result) is K_TD, len(dct) > 0 and (max_typed_dict_size is None or len(dct) <= max_typed_dict_size)"
                                   " and len(td_opt(result)) == 0 and forall(dct, lambda k: is_strval(k) and has(td_req(result), k)) and forall(td_req(result), lambda k: has(dct, k)))",
                   "post:td-disabled": "implies(max_typed_dict_size is not None and max_typed_dict_size <= 0, kind(result) is not K_TD)",
+                  # C05: only dicts keyed by plain str (not by instances of a str subclass, whose class a TypedDict cannot name) become TypedDicts
+                  "post:td-exact-str-keys": "implies(kind(result) is K_TD, forall(dct, lambda k: cls_of(k) is CLS_str))",
                   # C12: a TypedDict is only built from keys that can be written as fields of a class (identifiers, not keywords)
                   "post:td-field-names": "implies(kind(result) is K_TD, forall(dct, lambda k: is_identifier(k) and not is_keyword(k) and not prefixof('__', unboxs(k)) and nfkc_(k) is k))",
                   "post:empty-dict": "implies(len(dct) == 0, result is Dict_(ANY, ANY))",
